@@ -14,6 +14,7 @@ import (
 	"context"
 	"encoding/binary"
 	"fmt"
+	"hash/crc32"
 	"hash/crc64"
 	"math/rand/v2"
 	"regexp/syntax"
@@ -22,6 +23,7 @@ import (
 	"strings"
 	"sync"
 	"time"
+	"unsafe"
 
 	grafanaregexp "github.com/grafana/regexp"
 
@@ -275,11 +277,11 @@ func c19RandPlan(r *rand.Rand, nKeys int, ballast bool) c19Plan {
 	}
 	if p.Op == "stream" {
 		p.Flush = r.IntN(3)
-		if r.IntN(5) == 0 {
+		if r.IntN(12) == 0 {
 			p.Consumer = 1 + r.IntN(2)
 		}
 	}
-	if r.IntN(6) == 0 {
+	if r.IntN(15) == 0 {
 		p.Hold = 1 + r.IntN(2)
 	}
 	return p
@@ -355,22 +357,25 @@ type c19Fault struct {
 	detail    any
 }
 
+// c19TouchBytes reads every byte of b (hardware crc: one pass, no per-byte race
+// instrumentation); bytes that alias unmapped memory fault here.
 func c19TouchBytes(a *c19Answer, b []byte) {
-	var s uint64
-	for _, c := range b {
-		s += uint64(c)
-	}
-	a.sum += s
+	a.sum += uint64(crc32.ChecksumIEEE(b))
 	a.bytes += uint64(len(b))
 }
 
 func c19TouchString(a *c19Answer, s string) {
-	var x uint64
-	for i := 0; i < len(s); i++ {
-		x += uint64(s[i])
-	}
-	a.sum += x
+	a.sum += uint64(crc32.ChecksumIEEE(unsafe.Slice(unsafe.StringData(s), len(s))))
 	a.bytes += uint64(len(s))
+}
+
+// c19ContextOK: before must be the text that ends right in front of the line, after
+// the text that starts right behind it (with or without the separating newline).
+func c19ContextOK(content []byte, lineStart, lineEnd int, before, after []byte) bool {
+	head, tail := content[:lineStart], content[lineEnd:]
+	okB := len(before) == 0 || bytes.HasSuffix(head, before) || bytes.HasSuffix(bytes.TrimSuffix(head, []byte{'\n'}), before)
+	okA := len(after) == 0 || bytes.HasPrefix(tail, after) || bytes.HasPrefix(bytes.TrimPrefix(tail, []byte{'\n'}), after)
+	return okB && okA
 }
 
 func c19Clip(b []byte) string {
@@ -432,7 +437,7 @@ func c19ReadFiles(p *c19Plan, files []zoekt.FileMatch) (*c19Answer, []c19Fault) 
 				continue
 			}
 			okLine := lm.LineStart >= 0 && lm.LineStart <= lm.LineEnd && lm.LineEnd <= len(exp.content) && bytes.Equal(exp.content[lm.LineStart:lm.LineEnd], lm.Line)
-			if !okLine || !bytes.Contains(exp.content, lm.Before) || !bytes.Contains(exp.content, lm.After) {
+			if !okLine || !c19ContextOK(exp.content, lm.LineStart, lm.LineEnd, lm.Before, lm.After) {
 				fault("result bytes differ from the version the file names/line", fmt.Sprintf("line match [%d,%d) of %s is not that range of key %d version %d doc %d", lm.LineStart, lm.LineEnd, f.FileName, k, v, i), f,
 					map[string]any{"line": c19Clip(lm.Line), "before": c19Clip(lm.Before), "after": c19Clip(lm.After)})
 			}
